@@ -113,12 +113,15 @@ type checker struct {
 	idx   int
 	w     *world
 	fatal bool // a panic or harness problem ended the case
+	pre   string // "" for the sequential parts, "concurrent:" while part C runs (prefix of violation keys and scenarios)
 }
+
+func (c *checker) observed(name string) { c.run.Observed(c.pre + name) }
 
 func (c *checker) panicked(pi *mon.PanicInfo, where string, witness any) {
 	c.fatal = true
 	if pi.InRepo {
-		c.run.Violation("C17:panic:"+pi.Site(), int64(c.idx), "library panicked in "+where+": "+pi.Value, map[string]any{"config": c.w.cfg, "case": witness, "frame": pi.Frame})
+		c.run.Violation("C17:"+c.pre+"panic:"+pi.Site(), int64(c.idx), "library panicked in "+where+": "+pi.Value, map[string]any{"config": c.w.cfg, "case": witness, "frame": pi.Frame})
 		return
 	}
 	c.run.HarnessBug("panic outside the library in " + where + ": " + pi.Value + " at " + pi.Frame + "\n" + clip(pi.Stack, 1500))
@@ -133,7 +136,7 @@ func (c *checker) checkLogin(lr *loginRec) bool {
 	run.Eval()
 	wit := map[string]any{"config": cfg, "login": lr}
 	vio := func(key, what string) bool {
-		run.Violation("C17:"+key, int64(c.idx), what, wit)
+		run.Violation("C17:"+c.pre+key, int64(c.idx), what, wit)
 		return false
 	}
 	if lr.Status != 302 || lr.Location == "" {
@@ -213,12 +216,12 @@ func (c *checker) checkLogin(lr *loginRec) bool {
 		run.Count("login", "grey:challenge-without-pkce")
 	}
 	lr.OK = true
-	run.Count("login", "ok:"+cfg.Kind)
-	run.Observed("authurl:" + cfg.Kind)
+	run.Count(c.pre+"login", "ok:"+cfg.Kind)
+	c.observed("authurl:" + cfg.Kind)
 	if cfg.PKCE {
-		run.Observed("authurl:pkce")
+		c.observed("authurl:pkce")
 	}
-	run.SampleKind("login", wit)
+	run.SampleKind(c.pre+"login", wit)
 	return true
 }
 
@@ -247,7 +250,7 @@ func (c *checker) judge(spec *cbSpec, out *cbOut, logins []*loginRec) {
 	run, w, cfg := c.run, c.w, c.w.cfg
 	run.Eval()
 	wit := map[string]any{"config": cfg, "logins": logins, "callback": spec, "observed": out}
-	vio := func(key, what string) { run.Violation("C17:"+key, int64(c.idx), what, wit) }
+	vio := func(key, what string) { run.Violation("C17:"+c.pre+key, int64(c.idx), what, wit) }
 
 	// what the presented jar proves: states / verifiers of cookies this RP minted under that very name
 	allowed, grey := map[string]bool{}, map[string]bool{}
@@ -292,7 +295,7 @@ func (c *checker) judge(spec *cbSpec, out *cbOut, logins []*loginRec) {
 	case len(out.ErrH) > 0:
 		outcome = "error-handler"
 	}
-	run.Count("outcome:"+zone, outcome)
+	run.Count(c.pre+"outcome:"+zone, outcome)
 	run.Count("status", fmt.Sprint(out.Status))
 	for _, u := range out.Unauth {
 		run.Count("unauthorized_desc", clipDesc(u.A))
@@ -305,7 +308,7 @@ func (c *checker) judge(spec *cbSpec, out *cbOut, logins []*loginRec) {
 
 	switch zone {
 	case "refuse":
-		run.Count("refuse_class", class)
+		run.Count(c.pre+"refuse_class", class)
 		if exchanged || appRan {
 			vio("exchange-without-matching-state:"+class, fmt.Sprintf("token requests=%d, application callback calls=%d although no presented state cookie minted by this RP carries a presented state value %q", len(out.Token), len(out.App), spec.QueryStates))
 			return
@@ -318,8 +321,10 @@ func (c *checker) judge(spec *cbSpec, out *cbOut, logins []*loginRec) {
 			vio("refusal-not-unauthorized:"+class, fmt.Sprintf("state does not match but the unauthorized handler did not handle it (status %d, unauthorized calls %d, error handler calls %d)", out.Status, len(out.Unauth), len(out.ErrH)))
 			return
 		}
-		run.Observed("refused:" + family(class))
-		run.SampleKind("refused:"+family(class), wit)
+		c.observed("refused:" + family(class))
+		if c.pre == "" {
+			run.SampleKind("refused:"+family(class), wit)
+		}
 	case "grey":
 		run.Count("grey", "equivalent-encoding-of-state-cookie:"+spec.StateCls)
 	}
@@ -353,7 +358,7 @@ func (c *checker) judge(spec *cbSpec, out *cbOut, logins []*loginRec) {
 		switch {
 		case has && len(tr.Form["code_verifier"]) == 1 && allowedV[cv]:
 			run.Count("pkce", "verifier-is-the-one-in-presented-cookie")
-			run.Observed("pkce:verifier-from-cookie")
+			c.observed("pkce:verifier-from-cookie")
 		case has && greyV[cv]:
 			run.Count("grey", "equivalent-encoding-of-pkce-cookie:"+spec.PKCECls)
 		default:
@@ -363,7 +368,7 @@ func (c *checker) judge(spec *cbSpec, out *cbOut, logins []*loginRec) {
 	}
 	if cfg.PKCE && !exchanged && zone == "allowed" && len(allowedV) == 0 && len(greyV) == 0 && !spec.ErrorParam {
 		run.Count("pkce", "refused:no-valid-pkce-cookie:"+family(spec.PKCECls))
-		run.Observed("pkce:refused-without-cookie")
+		c.observed("pkce:refused-without-cookie")
 	}
 
 	if appRan {
@@ -381,16 +386,20 @@ func (c *checker) judge(spec *cbSpec, out *cbOut, logins []*loginRec) {
 		if out.App[0].Access == "" || (cfg.Kind == "oidc" && !out.App[0].HasClaims) {
 			run.Count("grey", "callback-without-tokens")
 		}
-		run.Observed("valid:" + cfg.Kind)
-		run.Observed("valid:" + strings.ToLower(spec.Method))
+		c.observed("valid:" + cfg.Kind)
+		c.observed("valid:" + strings.ToLower(spec.Method))
 		if cfg.PKCE {
-			run.Observed("valid:pkce")
+			c.observed("valid:pkce")
 		}
 		if cfg.Signer != "" {
-			run.Observed("valid:jwt-profile")
+			c.observed("valid:jwt-profile")
 		}
 		if spec.Part == "A" {
-			run.Observed("valid:interleaved")
+			c.observed("valid:interleaved")
+		}
+		if spec.Part == "C" && out.App[0].Access != "at-"+s256(spec.Code)[:16] {
+			vio("callback-tokens-of-other-request", fmt.Sprintf("the application callback of this request received access token %q, the provider issued %q for its code", out.App[0].Access, "at-"+s256(spec.Code)[:16]))
+			return
 		}
 		deleted := 0
 		for _, ck := range out.cookies {
@@ -997,6 +1006,11 @@ func runCase(run *ev.Run, idx int) {
 			}
 		}
 	}
+	// --- part C
+	c.partC(r)
+	if c.fatal {
+		return
+	}
 	if len(op.other) > 0 {
 		run.Count("provider_other_requests", clip(op.other[0], 60))
 	}
@@ -1021,7 +1035,10 @@ func main() {
 		"valid:oauth", "valid:oidc", "valid:pkce", "valid:jwt-profile", "valid:get", "valid:post", "valid:interleaved",
 		"refused:missing", "refused:otherkeys", "refused:othername", "refused:swapped", "refused:tampered", "refused:query-differs", "refused:other-login",
 		"pkce:verifier-from-cookie", "pkce:refused-without-cookie",
-		"interleave:overwritten-login-refused", "interleave:all-6-orderings-of-2", "interleave:all-90-orderings-of-3")
+		"interleave:overwritten-login-refused", "interleave:all-6-orderings-of-2", "interleave:all-90-orderings-of-3",
+		"concurrent:login-round-overlapped:shared-handler", "concurrent:login-round-overlapped:own-handlers", "concurrent:callback-round-overlapped",
+		"concurrent:authurl:oauth", "concurrent:authurl:oidc", "concurrent:authurl:pkce", "concurrent:valid:pkce", "concurrent:valid:oauth", "concurrent:valid:oidc",
+		"concurrent:refused:missing", "concurrent:refused:other-login", "concurrent:refused:query-differs", "concurrent:pkce:verifier-from-cookie")
 	n := run.N(1000, 16000)
 	ev.Parallel(n, 0, func(_ int, i int) { runCase(run, i) })
 	n2, n3 := 0, 0
